@@ -10,6 +10,10 @@ package main
 //     record:  N:<hex> NULL | P:<hex> PRIVATE | T:<hex>,<hex>,… TXT strings ("T:" = no strings) | M:<pref>:<hex> MX |
 //              S:<prio>:<hex> SRV | C:<hex> CNAME | Q:<hex> AAAA | A:<hex> A | X (a record of another type)
 //   cli result: PANIC | ERR | <letter>:<error name or OK>:<fields>
+//   dnsfuzz dec|enc <code> <hex> | single | pairs <first byte, hex>
+//     the real Decode / Encode of the codec with that code on one input, on every single octet, or on the 256
+//     two-octet inputs with the given first octet.  result: RETURNS | PANIC.  The models assume total codecs
+//     (Codec.Total), so the model's line is the constant RETURNS: a difference is a violated hypothesis.
 
 import (
 	"fmt"
@@ -35,6 +39,8 @@ func (dfComp) Exec(op string) (string, string, string, bool) {
 		return res, mon, "srv:" + class, nt
 	case strings.HasPrefix(op, "cli "):
 		return dfCli(strings.TrimPrefix(op, "cli "))
+	case strings.HasPrefix(op, "dec "), strings.HasPrefix(op, "enc "):
+		return dfCodecTotal(op)
 	}
 	return "bad-op", "", "bad", false
 }
@@ -171,7 +177,7 @@ func dfCli(op string) (result, monitor, class string, nontrivial bool) {
 	}()
 	alloc1 := dsAllocated()
 	if panicked != "" {
-		return "PANIC", "client decoder panic: " + panicked, "cli:PANIC", false
+		return "PANIC", "PANIC in the client response decoder (downstream codec " + string(code) + ") on records " + strings.Join(recs, " ") + ": " + panicked, "cli:PANIC", false
 	}
 	if d := alloc1 - alloc0; d > dsAllocLimit {
 		monitor = fmt.Sprintf("one answer made the client allocate %d MiB", d>>20)
@@ -205,6 +211,69 @@ func dfCli(op string) (result, monitor, class string, nontrivial bool) {
 	}
 	p := strings.SplitN(result, ":", 3)
 	return result, monitor, "cli:" + p[0] + ":" + p[1], true
+}
+
+// dfCodecTotal: the totality hypothesis of the C12 theorems, checked on the real codecs
+func dfCodecTotal(op string) (result, monitor, class string, nontrivial bool) {
+	t := strings.Fields(op)
+	if len(t) < 3 || len(t[1]) != 1 {
+		return "bad-op", "", "bad", false
+	}
+	code := t[1][0]
+	if _, err := enc.FromCode(code); err != nil {
+		return "bad-op", "", "bad", false
+	}
+	var inputs [][]byte
+	switch {
+	case t[2] == "single" && len(t) == 3:
+		for b := 0; b < 256; b++ {
+			inputs = append(inputs, []byte{byte(b)})
+		}
+	case t[2] == "pairs" && len(t) == 4:
+		f, err := unhex(t[3])
+		if err != nil || len(f) != 1 {
+			return "bad-op", "", "bad", false
+		}
+		for b := 0; b < 256; b++ {
+			inputs = append(inputs, []byte{f[0], byte(b)})
+		}
+	case len(t) == 3:
+		in, err := unhex(t[2])
+		if err != nil {
+			return "bad-op", "", "bad", false
+		}
+		inputs = [][]byte{in}
+	default:
+		return "bad-op", "", "bad", false
+	}
+	class = fmt.Sprintf("%s:%c", t[0], code)
+	for _, in := range inputs {
+		var p string
+		if t[0] == "dec" {
+			_, _, p = dsSafeDecode(code, in)
+		} else {
+			_, p = dsSafeEncode(code, in)
+		}
+		if p != "" {
+			what := "Decode"
+			if t[0] == "enc" {
+				what = "Encode"
+			}
+			return "PANIC", fmt.Sprintf("PANIC in %s of codec %c (%T) on %s: %s", what, code, dsEncoder(code), hexs(in), p), class + ":PANIC", false
+		}
+	}
+	return "RETURNS", "", class, true
+}
+
+// the presentation form in which miekg/dns hands an octet of a query name to the handler
+func dfPresent(b byte) []byte {
+	switch {
+	case b == '.' || b == '\\' || b == '"' || b == '(' || b == ')' || b == ';' || b == ' ' || b == '@' || b == '$':
+		return []byte{'\\', b}
+	case b < 0x21 || b > 0x7e:
+		return []byte(fmt.Sprintf("\\%03d", b))
+	}
+	return []byte{b}
 }
 
 // ---------------------------------------------------------------- generation
@@ -429,6 +498,7 @@ func dfPayloads(r *Rand, code byte) [][]byte {
 	e := dsEncoder(code)
 	var out [][]byte
 	add := func(resp commands.Response) {
+		defer func() { _ = recover() }() // an encoder that panics yields no payload here; the enc sweep reports it
 		if d, err := resp.Encode(e); err == nil {
 			out = append(out, d)
 		}
@@ -496,6 +566,64 @@ func (dfComp) Gen(r *Rand, tier string, emit func(string)) {
 		b.packet("a1", 0, 65535, nil, 40)
 		emit("srv " + b.line())
 	}
+	// the totality hypothesis on the real codecs: every single octet and every pair of octets, both directions
+	for i := 0; i < len(dsEncCodes); i++ {
+		for _, dir := range []string{"dec", "enc"} {
+			emit(fmt.Sprintf("%s %c -", dir, dsEncCodes[i]))
+			emit(fmt.Sprintf("%s %c single", dir, dsEncCodes[i]))
+			for b := 0; b < 256; b++ {
+				emit(fmt.Sprintf("%s %c pairs %02x", dir, dsEncCodes[i], b))
+			}
+		}
+	}
+	// every octet value through the server handler, for every upstream codec a client can negotiate: the octet alone
+	// as the packet body, in place of one character of a valid body, and appended to a valid body
+	for i := 0; i < len(dsEncCodes); i++ {
+		up, uerr := enc.FromCode(dsEncCodes[i])
+		if uerr != nil {
+			continue
+		}
+		for v := 0; v < 256; v++ {
+			forms := [][]byte{dfPresent(byte(v))}
+			if tier == "thorough" {
+				forms = append(forms, []byte{byte(v)}) // the raw octet too (not what miekg would hand over, but cheap)
+			}
+			for _, form := range forms {
+				for variant := 0; variant < 3; variant++ {
+					dom := doms[(v+variant)%2]
+					b := dsNewBuilder(r, dom)
+					b.open("a1", sadns.ProtocolVersion)
+					b.options("a1", 0, &commands.SetOptionsRequest{UpstreamEncoder: up})
+					b.write(0, []byte("keep"))
+					valid := b.encode(&commands.PacketRequest{UserId: 0, LastAckedSeqNo: 65535, Packet: &util.Packet{SeqNo: 0, Data: r.Bytes(1 + r.Intn(9))}}, dsEncCodes[i])
+					sfx := "." + dom + "."
+					if len(valid) < 6+len(sfx) {
+						valid = []byte("cabc00" + sfx)
+					}
+					body := valid[6 : len(valid)-len(sfx)]
+					var nb []byte
+					switch variant {
+					case 0:
+						nb = form
+					case 1:
+						k := 0
+						if len(body) > 0 {
+							k = r.Intn(len(body))
+							nb = append(append(append([]byte{}, body[:k]...), form...), body[k+1:]...)
+						} else {
+							nb = form
+						}
+					default:
+						nb = append(append([]byte{}, body...), form...)
+					}
+					name := append(append(append([]byte{}, valid[:6]...), nb...), sfx...)
+					b.msg("a1", dsQtypesKnown[r.Intn(8)], name, 'T')
+					b.packet("a1", 0, 65535, nil, 40)
+					emit("srv " + b.line())
+				}
+			}
+		}
+	}
 	// grammar-generated names
 	n := 2500
 	if tier == "thorough" {
@@ -512,7 +640,7 @@ func (dfComp) Gen(r *Rand, tier string, emit func(string)) {
 
 	// ---------------- client
 	kinds := "NPTMSCQA"
-	codes := "TSUVR"
+	codes := dsEncCodes
 	for _, dom := range doms[:2] {
 		emitRecs := func(code byte, recs ...string) {
 			c := &dfCliBuilder{dom: dom, code: code, recs: recs}
@@ -544,6 +672,41 @@ func (dfComp) Gen(r *Rand, tier string, emit func(string)) {
 			emitRecs('T', "N:0100"+hexs([]byte{byte(first), 'e'}))
 			emitRecs('T', "N:0100"+hexs([]byte{byte(first), '0', '0'}))
 			emitRecs('T', "N:0100"+hexs([]byte{byte(first), '-', '1'}))
+		}
+	}
+	// every octet value through the client decoder, for every downstream codec: as the whole body of each response
+	// kind, and in place of one byte of a valid encoded response (NULL and TXT records)
+	for i := 0; i < len(dsEncCodes); i++ {
+		code := dsEncCodes[i]
+		ps := dfPayloads(r, code)
+		for v := 0; v < 256; v++ {
+			dom := doms[v%2]
+			for _, first := range "vozyrce" {
+				c := &dfCliBuilder{dom: dom, code: code, recs: []string{"N:0100" + hexs([]byte{byte(first), byte(v)})}}
+				if first == 'y' {
+					c.recs = []string{"N:0100" + hexs([]byte{'y', "eo"[v%2], byte(v)})}
+				}
+				if first == 'v' {
+					c.recs = []string{"N:0100" + hexs([]byte{'v', '0', '0', byte(v)})}
+				}
+				emit(c.line())
+			}
+			if len(ps) == 0 {
+				continue
+			}
+			for k := 0; k < 2; k++ {
+				p := append([]byte{}, ps[r.Intn(len(ps))]...)
+				if len(p) > 1 {
+					p[1+r.Intn(len(p)-1)] = byte(v)
+				}
+				c := &dfCliBuilder{dom: dom, code: code}
+				if k == 0 {
+					c.recs = []string{dfRecord(r, 'N', 1, p, dom)}
+				} else {
+					c.recs = []string{dfRecord(r, 'T', 0, p, dom)}
+				}
+				emit(c.line())
+			}
 		}
 	}
 	m := 1500
